@@ -20,18 +20,18 @@ Judge(e) ==
       w == World(e.dims[1], e.dims[2], e.dims[3], e.base, e.code)
       PT == [i \in 1..Len(T) |-> <<e.pos[T[i][1]], e.pos[T[i][2]], e.pos[T[i][3]]>>]
       v == IF e.aligned THEN Vol48(PT) ELSE e.vol
-      say(ok, why) == ok \/ (PrintT(<<"BAD", l, why>>) /\ FALSE)
+      say(ok, why) == IF ok THEN TRUE ELSE (PrintT(<<"BAD", l, why>>) /\ FALSE)
   IN /\ say(Balanced(T), "open-or-misoriented-edge")
      /\ say(NoDegenerate(T), "degenerate-triangle")
      /\ say(e.outside = 0, "vertex-outside-box")
      /\ say(v >= 0 /\ (HasN(w) => v > 0), "volume-not-positive")
      /\ (e.aligned => say(VerticesOnSurface(w, PT), "vertex-not-on-straddling-edge"))
      /\ (e.aligned => say(v = e.vol, "projection-volume-mismatch"))
-     /\ (e.aligned => (SameBag(PT, WorldTris(w)) \/ PrintT(<<"DRIFT", l>>)))
+     /\ (e.aligned => (IF SameBag(PT, WorldTris(w)) THEN TRUE ELSE PrintT(<<"DRIFT", l>>)))
 
 Next == /\ l <= Len(Trace)
         /\ l' = l + 1
-        /\ (Judge(Trace[l]) \/ TRUE)
+        /\ (IF Judge(Trace[l]) THEN TRUE ELSE TRUE)
 Spec == Init /\ [][Next]_l
 Report == l = Len(Trace) + 1 => PrintT(<<"CONSUMED", l - 1>>)
 =============================================================================
